@@ -333,3 +333,6 @@ func (v V) Depth() int {
 	}
 	return d + 1
 }
+
+// MaxSafe is 2^53-1, the largest integer UCAN allows.
+const MaxSafe = int64(1)<<53 - 1
